@@ -316,6 +316,7 @@ type violation struct{ msg string }
 // runs the oracles.
 func (w *world) quiesce() {
 	synctest.Wait()
+	watchdogProgress.Add(1)
 	w.m.observe()
 }
 
